@@ -171,7 +171,7 @@ def _run_naive(case, ctx):
     yl = [float(v) for v in vals]
     drift_nan = strategy == "drift" and (math.isnan(yl[-1]) or math.isnan(yl[n - w_eff])) and not all(math.isnan(v) for v in yl[n - w_eff:])
     try:
-        pred = f.predict(steps)
+        pred = f.predict(_fharg(case, case["off"] + n - 1, steps))
     except ValueError as e:
         ctx.check("naive.oos", drift_nan, "naive:predict-raised", "predict raised on a valid case: %s" % e, case=case)
         return
@@ -309,6 +309,14 @@ def _series(case):
     return pd.Series(vals, index=_index(n, case["off"], case["idx"]))
 
 
+def _fharg(case, cutoff_label, steps):
+    """the same horizon as relative steps or as absolute time points (half of the cases each)"""
+    from sktime.forecasting.base import ForecastingHorizon
+    if (case["dseed"] // 3) % 2:
+        return ForecastingHorizon([cutoff_label + s for s in steps], is_relative=False)
+    return steps
+
+
 def _run_sm(case, ctx):
     import warnings
 
@@ -319,6 +327,8 @@ def _run_sm(case, ctx):
     if case["gapped"] and len(steps) > 2:
         steps = [s for s in steps if s % 2 == 1]
     yr = pd.Series(y.values.copy(), index=pd.RangeIndex(off, off + n))
+    harg = _fharg(case, off + n - 1, steps)
+    ctx.tag("horizon:%s" % ("absolute" if not isinstance(harg, list) else "relative"))
     with warnings.catch_warnings():
         warnings.simplefilter("ignore")
         if kind == "es":
@@ -328,7 +338,7 @@ def _run_sm(case, ctx):
             ok, _ = ctx.call("statsmodels:fit-exception:es", f.fit, y.copy())
             if not ok:
                 return
-            ok, pred = ctx.call("statsmodels:predict-exception:es", f.predict, steps)
+            ok, pred = ctx.call("statsmodels:predict-exception:es", f.predict, harg)
             if not ok:
                 return
             m = SM(yr, trend=o.get("trend"), damped_trend=o.get("damped_trend", False), seasonal=o.get("seasonal"),
@@ -341,7 +351,7 @@ def _run_sm(case, ctx):
             ok, _ = ctx.call("statsmodels:fit-exception:ets", f.fit, y.copy())
             if not ok:
                 return
-            ok, pred = ctx.call("statsmodels:predict-exception:ets", f.predict, steps)
+            ok, pred = ctx.call("statsmodels:predict-exception:ets", f.predict, harg)
             if not ok:
                 return
             m = ETSModel(yr, error=o.get("error", "add"), trend=o.get("trend"), damped_trend=o.get("damped_trend", False),
@@ -355,7 +365,7 @@ def _run_sm(case, ctx):
             ok, _ = ctx.call("statsmodels:fit-exception:theta", f.fit, y.copy())
             if not ok:
                 return
-            ok, pred = ctx.call("statsmodels:predict-exception:theta", f.predict, steps)
+            ok, pred = ctx.call("statsmodels:predict-exception:theta", f.predict, harg)
             if not ok:
                 return
             sp = o.get("sp", 1)
